@@ -97,6 +97,22 @@ def random_table(rng, w, n, ordered_overlapping):
     return table
 
 
+def many_chips(table, target, rng):
+    """minimise_tables for several chips at once; the answer for the chip that holds `table`.  The other chips hold
+    the same keys, masks and routes with other source directions (packets turning a corner instead of going straight
+    through, or the reverse) and have no target, so only this chip's target can fail."""
+    def sibling():
+        return [RTE(e.route, e.key, e.mask, rng.choice(SOURCE_SETS) if rng.random() < 0.6 else e.sources)
+                for e in table]
+    chips = [((1, 2), list(table))]
+    for xy in rng.sample([(0, 0), (2, 1), (3, 3)], rng.randint(0, 2)):
+        chips.append((xy, sibling()))
+    rng.shuffle(chips)
+    tables = dict(chips)
+    targets = {xy: (target if xy == (1, 2) else None) for xy in tables}
+    return minimise_tables(tables, targets).get((1, 2), [])
+
+
 def run_methods(table, w, rng, chk, stepped=True, any_order=False):
     """all minimisers x targets on one table -> one trace"""
     n = len(table)
@@ -104,7 +120,7 @@ def run_methods(table, w, rng, chk, stepped=True, any_order=False):
     methods = [("rdr", remove_default_routes.minimise)]
     if not any_order:
         methods += [("oc", oc_mod.minimise), ("mt", minimise_table),
-                    ("mts", lambda t, tl: minimise_tables({(1, 2): t}, tl).get((1, 2), []))]
+                    ("mts", lambda t, tl: many_chips(t, tl, rng))]
     if w <= 4 or not chk.quick:
         targets = [None, 0, n // 2, n, n + 2] + ([rng.randint(0, n + 1)] if n > 2 else [])
     else:       # quick tier, wide tables: three targets (the all-keys quantifier dominates the cost)
